@@ -591,3 +591,457 @@ def split_case(job, t0):
 
 
 import json  # noqa: E402
+
+
+# ------------------------------------------------------------------ C18
+def bezier_case(job):
+    """segment calculus against the values computed by TLC from spec/Bezier.tla"""
+    import math
+    t0 = time.time()
+    table_path, kx, ky, opts = job
+    try:
+        sp = world.shapepy()
+        from shapepy.curve import Math, IntegratePlanar
+        d = json.load(open(table_path))
+        cx, cy = d["cases"][kx], d["cases"][ky]
+        assert len(cx["cp"]) == len(cy["cp"])
+        p = len(cx["cp"]) - 1
+        nodes = [tuple(n) for n in d["nodes"]]
+        numtype = opts.get("numtype", "frac")
+        conv = (lambda v: F(v)) if numtype == "frac" else (lambda v: int(v)) if numtype == "int" else (lambda v: float(v))
+        ctrl = [(conv(a), conv(b)) for a, b in zip(cx["cp"], cy["cp"])]
+        seg = sp.PlanarCurve(ctrl)
+        fails = []
+        exact = numtype != "float"
+
+        def same(got, ex):
+            if exact:
+                return got[0] == ex[0] and got[1] == ex[1] and not isinstance(got[0], float) and not isinstance(got[1], float)
+            return abs(float(got[0]) - float(ex[0])) + abs(float(got[1]) - float(ex[1])) <= 1e-9 * (1 + abs(float(ex[0])) + abs(float(ex[1])))
+
+        # the memoised characteristic matrix, cold then warm
+        for rep_ in range(2):
+            M = Math.bezier_caract_matrix(p)
+            if [list(r) for r in M] != d["caract"][p - 1]:
+                fails.append(Failure("C18", "bezier_caract_matrix differs from the Bernstein-to-monomial matrix", degree=p, got=[list(r) for r in M], call=rep_))
+        dseg = seg.derivate() if p >= 1 else None
+        for k, (n, dd) in enumerate(nodes):
+            t = F(n, dd) if exact else n / dd
+            ex = (F(cx["eval"][k][0], cx["eval"][k][1]), F(cy["eval"][k][0], cy["eval"][k][1]))
+            try:
+                got = seg(t)
+                if not same(got, ex):
+                    fails.append(Failure("C18", "segment(t) differs from the Bernstein sum", degree=p, t=str(t), expected=ex, got=(got[0], got[1])))
+                got2 = seg.eval((t,))[0]
+                if not same(got2, ex):
+                    fails.append(Failure("C18", "eval((t,)) differs from the Bernstein sum", degree=p, t=str(t)))
+                exd = (F(cx["deriv"][k][0], cx["deriv"][k][1]), F(cy["deriv"][k][0], cy["deriv"][k][1]))
+                gd = dseg(t)
+                if not same(gd, exd):
+                    fails.append(Failure("C18", "derivate()(t) differs from the derivative", degree=p, t=str(t), expected=exd, got=(gd[0], gd[1])))
+                b = seg.box()
+                if not (b.lowpt[0] <= got[0] <= b.toppt[0] and b.lowpt[1] <= got[1] <= b.toppt[1]) or (got not in b):
+                    fails.append(Failure("C18", "box() does not contain segment(t)", degree=p, t=str(t)))
+                # split pieces re-parametrise the curve
+                if 0 < n < dd:
+                    left, right = seg.split((t,))
+                    exl = [(F(a[0], a[1]), F(b_[0], b_[1])) for a, b_ in zip(cx["left"][k], cy["left"][k])]
+                    exr = [(F(a[0], a[1]), F(b_[0], b_[1])) for a, b_ in zip(cx["right"][k], cy["right"][k])]
+                    gl = [(q[0], q[1]) for q in left.ctrlpoints]
+                    gr = [(q[0], q[1]) for q in right.ctrlpoints]
+                    if len(gl) != len(exl) or not all(same(g, e) for g, e in zip(gl, exl)):
+                        fails.append(Failure("C18", "left piece of split differs from de Casteljau", degree=p, t=str(t), expected=exl, got=gl))
+                    if len(gr) != len(exr) or not all(same(g, e) for g, e in zip(gr, exr)):
+                        fails.append(Failure("C18", "right piece of split differs from de Casteljau", degree=p, t=str(t), expected=exr, got=gr))
+            except BaseException as ex_:  # noqa
+                fails.append(Failure("C18", "segment calculus raised", degree=p, t=str(t), exc=repr(ex_), tb=traceback.format_exc(limit=-2)))
+                break
+        # derivative control points and higher derivatives
+        if p >= 1:
+            exdcp = list(zip(cx["dcp"], cy["dcp"]))
+            gdcp = [(q[0], q[1]) for q in dseg.ctrlpoints]
+            if len(gdcp) != len(exdcp) or not all(same(g, e) for g, e in zip(gdcp, exdcp)):
+                fails.append(Failure("C18", "control points of the derivative differ from p(P[i+1]-P[i])", degree=p, expected=exdcp, got=gdcp))
+        if p >= 2:
+            a_, b_ = seg.derivate(2), seg.derivate().derivate()
+            if [tuple(q) for q in a_.ctrlpoints] != [tuple(q) for q in b_.ctrlpoints]:
+                fails.append(Failure("C18", "derivate(2) differs from derivate().derivate()", degree=p))
+        # point-on-curve and winding for regular segments (monotone control polygons)
+        xs = [c[0] for c in ctrl]
+        regular = all(xs[i] < xs[i + 1] for i in range(len(xs) - 1))
+        if regular and numtype == "float":
+            for n in range(0, 21):
+                t = n / 20
+                q = seg(t)
+                if not ((q[0], q[1]) in seg):
+                    fails.append(Failure("C18", "segment(t) in segment is False for a regular segment", degree=p, t=t))
+                    break
+            # a point far from the curve is never `in` it
+            b = seg.box()
+            far = (float(b.toppt[0]) + 1.0, float(b.toppt[1]) + 1.0)
+            if far in seg:
+                fails.append(Failure("C18", "a point farther than the tolerance is `in` the segment", degree=p))
+            # winding contribution = subtended angle / tau about a centre outside the control box
+            c = (float(b.lowpt[0]) - 2.5, float(b.lowpt[1]) - 1.5)
+            A, B = seg(0), seg(1)
+            ang = math.atan2(float(B[1]) - c[1], float(B[0]) - c[0]) - math.atan2(float(A[1]) - c[1], float(A[0]) - c[0])
+            while ang <= -math.pi:
+                ang += math.tau
+            while ang > math.pi:
+                ang -= math.tau
+            wn = IntegratePlanar.winding_number(seg, c)
+            if abs(wn - ang / math.tau) > 1e-9:
+                fails.append(Failure("C18", "winding contribution differs from the subtended angle", degree=p, expected=ang / math.tau, got=wn))
+        return {"universe": "bezier", "real": numtype, "case": "bz:%d:%d" % (kx, ky), "row": None, "fails": [f.as_dict() for f in fails], "stats": {}, "wall": time.time() - t0,
+                "steps": [["PlanarCurve", [str(c) for c in ctrl]], ["Eval/Derivate/Split at", [list(n) for n in nodes]]], "machinery": None}
+    except BaseException:  # noqa
+        return {"universe": "bezier", "real": "?", "case": "bz:%d:%d" % (kx, ky), "fails": [], "stats": {}, "wall": time.time() - t0, "machinery": traceback.format_exc()}
+
+
+# ------------------------------------------------------------------ C17
+PTS4 = [(0, 0), (4, 0), (4, 3), (0, 3)]
+
+
+def chains_case(job):
+    """replay chains enumerated by TLC (spec/Curves.tla) through from_segments / from_ctrlpoints"""
+    t0 = time.time()
+    table_path, idxs, opts = job
+    try:
+        sp = world.shapepy()
+        d = json.load(open(table_path))
+        numtype, deg = opts.get("numtype", "int"), opts.get("deg", 1)
+        conv = {"int": int, "frac": F, "float": float}[numtype]
+        fails = []
+        n = 0
+        for ix in idxs:
+            c = d["chains"][ix]
+            chain, closed = c["chain"], c["closed"]
+
+            def ctrl(a, b):
+                P, Q = PTS4[a - 1], PTS4[b - 1]
+                if deg == 1:
+                    return [(conv(P[0]), conv(P[1])), (conv(Q[0]), conv(Q[1]))]
+                mx, my = F(P[0] + Q[0], 2) + F(Q[1] - P[1], 5), F(P[1] + Q[1], 2) - F(Q[0] - P[0], 5)
+                mid = (float(mx), float(my)) if numtype == "float" else (mx, my)
+                return [(conv(P[0]), conv(P[1])), mid, (conv(Q[0]), conv(Q[1]))]
+
+            for how in ("segments", "ctrlpoints"):
+                n += 1
+                try:
+                    if how == "segments":
+                        J = sp.JordanCurve.from_segments([sp.PlanarCurve(ctrl(a, b)) for a, b in chain])
+                    else:
+                        J = sp.JordanCurve.from_ctrlpoints([ctrl(a, b) for a, b in chain])
+                    out = "accepted"
+                except BaseException as ex:  # noqa
+                    out = "raised"
+                if closed and out != "accepted":
+                    fails.append(Failure("C17", "a closed chain was rejected", chain=chain, how=how))
+                elif not closed and out == "accepted":
+                    fails.append(Failure("C17", "an open chain was accepted", chain=chain, how=how))
+                elif closed:
+                    got = [(float(s.ctrlpoints[0][0]), float(s.ctrlpoints[0][1])) for s in J.segments]
+                    want = [tuple(map(float, PTS4[a - 1])) for a, _ in chain]
+                    if got != want:
+                        fails.append(Failure("C17", "vertex cycle differs from the chain", chain=chain, how=how, got=got))
+                    segs = J.segments
+                    if any(segs[k].ctrlpoints[-1] is not segs[(k + 1) % len(segs)].ctrlpoints[0] for k in range(len(segs))):
+                        fails.append(Failure("C17", "consecutive segments do not share the junction point", chain=chain, how=how))
+        # non-curve arguments
+        for bad, fn in (("abc", sp.JordanCurve.from_vertices), ("abc", sp.JordanCurve.from_ctrlpoints), ([1, 2, 3], sp.JordanCurve.from_segments),
+                        (["ab", "cd"], sp.JordanCurve.from_segments), ([(0, 0), "x", (1, 1)], sp.JordanCurve.from_vertices)):
+            try:
+                fn(bad)
+                fails.append(Failure("C17", "a non-curve argument was accepted", arg=repr(bad), fn=fn.__name__))
+            except BaseException:  # noqa
+                pass
+        return {"universe": "chains", "real": "%s-deg%d" % (numtype, deg), "case": "ch:%d-%d" % (idxs[0], idxs[-1]), "row": None, "fails": [f.as_dict() for f in fails],
+                "stats": {"constructions": n}, "wall": time.time() - t0, "steps": [["from_segments/from_ctrlpoints", d["chains"][idxs[0]]["chain"]]], "machinery": None}
+    except BaseException:  # noqa
+        return {"universe": "chains", "real": "?", "case": "ch", "fails": [], "stats": {}, "wall": time.time() - t0, "machinery": traceback.format_exc()}
+
+
+@guarded
+def ctors_case(job, t0):
+    """the four constructors on every loop of a region agree"""
+    import pynurbs
+    uname, rname, reg, opts = job
+    st, real, w = _w(uname, rname)
+    sp = w.sp
+    fails = []
+    nl = 0
+    for lp in st.loops(reg):
+        for rot in (0, 1 + len(lp) // 2):
+            nl += 1
+            ctrl = [[real.npt(p) for p in c] for c in real.loop_ctrl(lp, rot=rot)]
+            built = {}
+            try:
+                built["ctrlpoints"] = sp.JordanCurve.from_ctrlpoints(ctrl)
+                built["segments"] = sp.JordanCurve.from_segments([sp.PlanarCurve(c) for c in ctrl])
+                if all(len(c) == 2 for c in ctrl):
+                    built["vertices"] = sp.JordanCurve.from_vertices([c[0] for c in ctrl])
+                degs = {len(c) - 1 for c in ctrl}
+                if len(degs) == 1 and real.numtype == "float":
+                    p = degs.pop()
+                    n = len(ctrl)
+                    knots = [0.0] * (p + 1)
+                    for k in range(1, n):
+                        knots += [k / n] * p
+                    knots += [1.0] * (p + 1)
+                    pts = [sp.Point2D(ctrl[0][0])]
+                    for c in ctrl:
+                        pts += [sp.Point2D(q) for q in c[1:]]
+                    curve = pynurbs.Curve(knots, pts)
+                    built["full_curve"] = sp.JordanCurve.from_full_curve(curve)
+            except BaseException as ex:  # noqa
+                fails.append(Failure("C17", "a constructor raised on a valid description", exc=repr(ex), tb=traceback.format_exc(limit=-2), loop=lp, rot=rot, built=sorted(built)))
+                continue
+            names = sorted(built)
+            ref = built[names[0]]
+            T = None
+            exp_area = None
+            for nm in names:
+                J = built[nm]
+                verts = [(float(v[0]), float(v[1])) for v in J.vertices]
+                want = []
+                for c in ctrl:
+                    want += [(float(q[0]), float(q[1])) for q in c[:-1]]
+                if len(verts) != len(want) or any(abs(a[0] - b[0]) + abs(a[1] - b[1]) > 1e-9 * max(1, real.size) for a, b in zip(verts, want)):
+                    fails.append(Failure("C17", "vertices are not each control point once, in order", how=nm, loop=lp, got=verts[:6], expected=want[:6]))
+                b = J.box()
+                for seg in J.segments:
+                    for k in range(11):
+                        q = seg(k / 10 if real.numtype == "float" else F(k, 10))
+                        if not (q in b):
+                            fails.append(Failure("C17", "box() does not enclose a point of the curve", how=nm, loop=lp))
+                            break
+                for other in names:
+                    try:
+                        eq = J == built[other]
+                    except BaseException as ex:  # noqa
+                        eq = repr(ex)
+                    if eq is not True:
+                        fails.append(Failure("C17", "two constructors give curves that are not ==", a=nm, b=other, got=repr(eq), loop=lp))
+                if abs(float(J) - float(ref)) > 1e-9 * max(1.0, abs(float(ref))):
+                    fails.append(Failure("C17", "signed length differs between constructors", a=nm, loop=lp))
+                ar = sp.IntegrateJordan.area(J)
+                # orientation: the specification's loops have the region on their left, so a loop is
+                # counter-clockwise iff the signed area of its image is positive
+                if (float(J) > 0) != (float(ar) > 0):
+                    fails.append(Failure("C17", "sign of float(curve) is not the orientation", how=nm, loop=lp))
+                if abs(float(ar) - float(sp.IntegrateJordan.area(ref))) > 1e-9 * max(1.0, abs(float(ar))):
+                    fails.append(Failure("C17", "area differs between constructors", a=nm, loop=lp))
+            # the shape on the loop's left: the loop alone is ccw iff it is an outer boundary
+            S = sp.SimpleShape(ref)
+            inside = w.project_region(S)[0]
+            if (float(ref) > 0) != (not (inside & 1)):
+                fails.append(Failure("C17", "orientation sign disagrees with the side the curve encloses", loop=lp))
+    r = _result(uname, rname, "ct:%d" % reg, fails, t0, [["from_vertices/from_segments/from_ctrlpoints/from_full_curve", reg, nl]])
+    r["stats"] = {"loops": nl}
+    return r
+
+
+# ------------------------------------------------------------------ C16
+SIZE_VALUES = {"posint": [1, 3], "posfrac": [F(3, 2), F(7, 3)], "posfloat": [0.75, 2.5], "zero": [0, 0.0], "neg": [-1, -0.5, F(-1, 2)], "str": ["a"], "none": [None]}
+CENTRE_VALUES = {"origin": [(0, 0)], "int": [(3, -2)], "frac": [(F(1, 2), F(-3, 4))], "float": [(0.25, -1.5)], "bad": ["x", (1, 2, 3), None]}
+COUNT_VALUES = {"1": 1, "2": 2, "3": 3, "4": 4, "5": 5, "7": 7, "16": 16, "64": 64, "3.0": 3.0, "str": "5"}
+
+
+def prims_case(job):
+    import math
+    t0 = time.time()
+    table_path, idxs, opts = job
+    try:
+        sp = world.shapepy()
+        P = sp.Primitive
+        d = json.load(open(table_path))
+        fails = []
+        ncalls = 0
+        for ix in idxs:
+            c = d["cases"][ix]
+            f, res = c["f"], c["res"]
+            for size in SIZE_VALUES[c["size"]]:
+                for centre in CENTRE_VALUES[c["centre"]]:
+                    cnt = COUNT_VALUES[c["count"]]
+                    call = {"square": lambda: P.square(size, centre), "triangle": lambda: P.triangle(size, centre),
+                            "regular": lambda: P.regular_polygon(cnt, size, centre), "circle": lambda: P.circle(size, centre, cnt)}[f]
+                    ncalls += 1
+                    try:
+                        S = call()
+                        out = "ok"
+                    except ValueError:
+                        out = "ValueError"
+                    except BaseException as ex:  # noqa
+                        out = "raised " + type(ex).__name__
+                    what = dict(factory=f, size=repr(size), centre=repr(centre), count=repr(cnt))
+                    if out != res["out"]:
+                        fails.append(Failure("C16", "outcome differs from the decision table", expected=res["out"], got=out, **what))
+                        continue
+                    if out != "ok":
+                        continue
+                    J = S.jordans[0]
+                    cx, cy = centre
+                    s = size
+                    if kind_of(S) != "S" or not float(J) > 0 or not float(S) > 0:
+                        fails.append(Failure("C16", "not a counter-clockwise simple shape", **what))
+                        continue
+                    if len(J.segments) != res["nsegs"] or any(sg.degree != res["degree"] for sg in J.segments):
+                        fails.append(Failure("C16", "number or degree of segments", expected=(res["nsegs"], res["degree"]), got=[sg.degree for sg in J.segments], **what))
+                    verts = [(v[0], v[1]) for v in (sg.ctrlpoints[0] for sg in J.segments)]
+                    if f == "square":
+                        h = F(s) / 2 if not isinstance(s, float) else s / 2
+                        want = [(cx + h, cy + h), (cx - h, cy + h), (cx - h, cy - h), (cx + h, cy - h)]
+                        area = s * s
+                    elif f == "triangle":
+                        want = [(cx, cy), (cx + s, cy), (cx, cy + s)]
+                        area = s * s / 2 if isinstance(s, float) else F(s) * s / 2
+                    elif f == "regular":
+                        n = cnt
+                        if n == 4:
+                            want = [(cx + s, cy), (cx, cy + s), (cx - s, cy), (cx, cy - s)]
+                        else:
+                            want = [(float(cx) + float(s) * math.cos(math.tau * k / n), float(cy) + float(s) * math.sin(math.tau * k / n)) for k in range(n)]
+                        area = 0.5 * n * float(s) ** 2 * math.sin(math.tau / n) if n != 4 else 2 * s * s
+                    else:
+                        n = cnt
+                        want = [(float(cx) + float(s) * math.cos(math.tau * k / n), float(cy) + float(s) * math.sin(math.tau * k / n)) for k in range(n)]
+                        area = None
+                    if res["exact"]:
+                        okv = len(verts) == len(want) and all(a[0] == b[0] and a[1] == b[1] for a, b in zip(verts, want))
+                        okv = okv and not any(isinstance(c_, float) for a in verts for c_ in a)
+                    else:
+                        okv = len(verts) == len(want) and all(abs(float(a[0]) - float(b[0])) + abs(float(a[1]) - float(b[1])) <= 1e-9 * (1 + abs(float(s))) for a, b in zip(verts, want))
+                    if not okv:
+                        fails.append(Failure("C16", "vertices differ from the documented geometry", expected=want[:4], got=verts[:4], exact=res["exact"], **what))
+                    A = sp.IntegrateShape.area(S)
+                    if area is not None:
+                        oka = (A == area) if res["exact"] else abs(float(A) - float(area)) <= 1e-9 * max(1.0, float(area))
+                        if not oka:
+                            fails.append(Failure("C16", "area differs from the closed form", expected=area, got=A, **what))
+                    else:
+                        r_ = float(s)
+                        lo, hi = 0.5 * n * r_ * r_ * math.sin(math.tau / n), n * r_ * r_ * math.tan(math.pi / n)
+                        if not (lo <= float(A) <= hi and float(A) >= math.pi * r_ * r_ * (1 - 1e-12)):
+                            fails.append(Failure("C16", "circle area outside [inscribed, circumscribed] polygon areas", got=float(A), lo=lo, hi=hi, **what))
+                        band = r_ * (1 + 1 / math.cos(math.pi / n)) / 2
+                        for sg in J.segments:
+                            for k in range(0, 9):
+                                q = sg(k / 8)
+                                dist = math.hypot(float(q[0]) - float(cx), float(q[1]) - float(cy))
+                                if not (r_ * (1 - 1e-9) <= dist <= band * (1 + 1e-9)):
+                                    fails.append(Failure("C16", "circle leaves the quadratic-approximation band", dist=dist, r=r_, band=band, **what))
+                                    break
+                    big = 10 * float(s) + 5
+                    if not ((cx, cy) in S) or ((float(cx) + big, float(cy) + big) in S):
+                        fails.append(Failure("C16", "centre not contained or far point contained", **what))
+        # circle area converges monotonically to pi r^2
+        areas = [float(sp.IntegrateShape.area(P.circle(1.5, (0.5, -1), n))) for n in (4, 5, 8, 16, 64, 256)]
+        if not all(a > b for a, b in zip(areas, areas[1:])) or abs(areas[-1] - math.pi * 2.25) > 1e-6 * math.pi * 2.25 * 10:
+            fails.append(Failure("C16", "circle area does not decrease to pi r^2", areas=areas))
+        # polygon keeps the vertex list and its orientation
+        for vs in ([(0, 0), (4, 0), (5, 2), (1, 3)], [(F(1, 2), 0), (3, F(1, 3)), (2, 4)], [(0.5, 0.25), (2.5, 0.75), (1.0, 3.0), (-0.5, 1.5), (-1.0, 0.5)]):
+            for order in (vs, vs[::-1]):
+                S = P.polygon(order)
+                got = [(v[0], v[1]) for v in S.jordans[0].vertices]
+                sh = sum(order[k][0] * order[(k + 1) % len(order)][1] - order[(k + 1) % len(order)][0] * order[k][1] for k in range(len(order))) / 2
+                if [(float(a), float(b)) for a, b in got] != [(float(a), float(b)) for a, b in order]:
+                    fails.append(Failure("C16", "polygon does not keep the given vertices in order", given=order, got=got))
+                A = sp.IntegrateShape.area(S)
+                if abs(float(A) - float(sh)) > 1e-12 * abs(float(sh)) or (float(S.jordans[0]) > 0) != (sh > 0):
+                    fails.append(Failure("C16", "polygon orientation/area differs from the vertex list", given=order, area=A, shoelace=sh))
+        return {"universe": "prims", "real": "classes", "case": "pr:%d-%d" % (idxs[0], idxs[-1]), "row": None, "fails": [f.as_dict() for f in fails],
+                "stats": {"calls": ncalls}, "wall": time.time() - t0, "steps": [["factory calls", d["cases"][idxs[0]]]], "machinery": None}
+    except BaseException:  # noqa
+        return {"universe": "prims", "real": "?", "case": "pr", "fails": [], "stats": {}, "wall": time.time() - t0, "machinery": traceback.format_exc()}
+
+
+# ------------------------------------------------------------------ C20
+CODES = {1: [2], 2: [3, 3], 3: [4, 4, 4]}
+
+
+@guarded
+def plot_case(job, t0):
+    import matplotlib
+    matplotlib.use("Agg")
+    from matplotlib import pyplot
+    uname, rname, reg, opts = job
+    st, real, w = _w(uname, rname)
+    sp = w.sp
+    fails = []
+    obj = w.canonical(reg)
+    if opts.get("cubic_up") and kind_of(obj) in "SCD":
+        pass
+    snap = w.snapshot(obj)
+    plotter = sp.ShapePloter()
+    try:
+        plotter.plot(obj)
+        ax = plotter.gca()
+        patches = list(ax.patches)
+        plan = st.row(reg)["plot"] if reg not in (0, st.u.full) else {"fills": 0, "outlines": 0}
+        fills = [p for p in patches if p.get_facecolor()[3] != 0]
+        outl = [p for p in patches if p.get_facecolor()[3] == 0]
+        if len(fills) != plan["fills"] or len(outl) != plan["outlines"]:
+            fails.append(Failure("C20", "number of filled paths / outlines differs from the plan", expected=(plan["fills"], plan["outlines"]), got=(len(fills), len(outl)), reg=reg))
+        if kind_of(obj) in "SCD":
+            comps = obj.subshapes if kind_of(obj) == "D" else [obj]
+            exp_fill = []
+            for comp in comps:
+                vs, cs = [], []
+                for j in comp.jordans:
+                    first = j.segments[0].ctrlpoints[0]
+                    vs.append((float(first[0]), float(first[1])))
+                    cs.append(1)
+                    for sg in j.segments:
+                        for q in sg.ctrlpoints[1:]:
+                            vs.append((float(q[0]), float(q[1])))
+                        cs += CODES[sg.degree]
+                    vs.append(vs[0] if False else (float(vs[0][0]), float(vs[0][1])))
+                    cs.append(79)
+                exp_fill.append((vs, cs, float(comp) > 0))
+            for (vs, cs, pos), p in zip(exp_fill, fills):
+                path = p.get_path()
+                codes = [int(c) for c in path.codes]
+                if codes != cs:
+                    fails.append(Failure("C20", "codes of a filled path do not retrace the boundary segment by segment", expected=cs, got=codes, reg=reg))
+                    continue
+                gv = [tuple(v) for v in path.vertices]
+                # every vertex but the closing ones must be the control points in order
+                bad = [k for k, (a, b) in enumerate(zip(gv, vs)) if cs[k] != 79 and abs(a[0] - b[0]) + abs(a[1] - b[1]) > 1e-9 * max(1, real.size)]
+                if bad:
+                    fails.append(Failure("C20", "vertices of a filled path differ from the control points", index=bad[:3], reg=reg))
+                fc = p.get_facecolor()
+                if pos and not (fc[1] > 0.9 and fc[0] < 0.1):  # lime
+                    fails.append(Failure("C20", "bounded component not filled", reg=reg, color=tuple(fc)))
+                if not pos and not (fc[0] > 0.99 and fc[1] > 0.99 and fc[2] > 0.99):
+                    fails.append(Failure("C20", "unbounded component not drawn as a hole in the background", reg=reg, color=tuple(fc)))
+            jl = [j for comp in comps for j in comp.jordans]
+            for j, p in zip(jl, outl):
+                path = p.get_path()
+                cs = [1] + [c for sg in j.segments for c in CODES[sg.degree]] + [79]
+                codes = [int(c) for c in path.codes]
+                if codes != cs:
+                    fails.append(Failure("C20", "codes of an outline do not retrace the curve segment by segment", expected=cs, got=codes, reg=reg))
+                    continue
+                vs = [j.segments[0].ctrlpoints[0]] + [q for sg in j.segments for q in sg.ctrlpoints[1:]]
+                gv = [tuple(v) for v in path.vertices]
+                bad = [k for k, (a, b) in enumerate(zip(gv, vs)) if abs(a[0] - float(b[0])) + abs(a[1] - float(b[1])) > 2e-6]
+                if bad:
+                    fails.append(Failure("C20", "vertices of an outline differ from the control points", index=bad[:3], reg=reg))
+            # the plan of the specification: one sub-path per loop with one group per corner
+            ncorn = sorted(c[1] for c in plan["corners"])
+            if sorted(len(j.segments) for j in jl) != ncorn:
+                fails.append(Failure("C20", "segments per drawn curve differ from the corners of the loops", expected=ncorn, reg=reg))
+        else:
+            if patches:
+                fails.append(Failure("C20", "Empty/Whole drew a path", reg=reg))
+            if kind_of(obj) == "W":
+                bg = ax.get_facecolor()
+                if not (bg[1] > 0.99 and bg[0] < 0.8):
+                    fails.append(Failure("C20", "Whole did not colour the background", color=tuple(bg)))
+        if w.snapshot(obj) != snap:
+            fails.append(Failure("C20", "plotting modified the shape", reg=reg))
+    except BaseException as ex:  # noqa
+        fails.append(Failure("C20", "plot raised", exc=repr(ex), tb=traceback.format_exc(limit=-3), reg=reg))
+    finally:
+        pyplot.close("all")
+    return _result(uname, rname, "plot:%d" % reg, fails, t0, [["MakeRegion", [1, reg]], ["Plot", [1]]])
